@@ -49,7 +49,7 @@ def signs(prog, ctx):
     bad = []
     for v, want in ((-2.5, -1), (0, 0), (3, 1), (-1e-300, -1), (1e-300, 1)):
         sel = select(outs, {x: v})
-        if len(sel) != 1 or sel[0].kind != 'return' or sel[0].value != want:
+        if len(sel) != 1 or sel[0].kind != 'return' or not isinstance(sel[0].value, sp.Basic) or sel[0].value.subs({x: v}) != want:
             bad.append((v, [str(o.value) for o in sel]))
     ctx.decide('C17.a', 'Sign(x)', fn, not bad, '1 for x>0, 0 for x==0, -1 for x<0', 'Sign(x) table differs: %s' % bad)
     fn2 = prog.fn(L + 'Sign', 2)
@@ -68,7 +68,7 @@ def signs(prog, ctx):
     bad = []
     for v, want in ((-2, 0), (0, 1), (5, 1), (-1e-300, 0)):
         sel = select(outs, {x: v})
-        if len(sel) != 1 or sel[0].value != want:
+        if len(sel) != 1 or not isinstance(sel[0].value, sp.Basic) or sel[0].value.subs({x: v}) != want:
             bad.append((v, [str(o.value) for o in sel]))
     ctx.decide('C17.a', 'StepFunction', fn3, not bad, '1 iff x>=0', 'StepFunction table differs: %s' % bad)
 
